@@ -532,6 +532,14 @@ Definition annotate (s : store) (b : abuild) : store * out :=
 
 (** * Removal *)
 
+(* BTreeSet of handles: sorted, duplicate-free *)
+Fixpoint ins_sorted (x : nat) (l : list nat) : list nat :=
+  match l with
+  | [] => [x]
+  | y :: l' => if x <? y then x :: l else if Nat.eqb x y then l else y :: ins_sorted x l'
+  end.
+Definition sort_dedup (l : list nat) : list nat := fold_right ins_sorted [] l.
+
 Definition dedup_nat (l : list nat) : list nat :=
   fold_right (fun x acc => if existsb (Nat.eqb x) acc then acc else x :: acc) [] l.
 
@@ -589,7 +597,7 @@ Definition rm_resource (s : store) (r : iref) : store * out :=
   | None => (s, OErr)
   | Some h =>
       let s1 := remove_anns s (rget (ramm s) h) in
-      let texts := dedup_nat (concat (nth h (trm s1) [])) in
+      let texts := sort_dedup (concat (nth h (trm s1) [])) in
       let s2 := remove_anns s1 texts in
       let s3 := set_trm (set_ramm s2 (rclear (ramm s2) h)) (tclear (trm s2) h) in
       match get_res s3 h with
@@ -613,9 +621,12 @@ Definition rm_dataset (s : store) (r : iref) : store * out :=
       let s1 := remove_anns s users in
       let s2 := remove_anns s1 (rget (samm s1) h) in
       let s3 := set_samm s2 (rclear (samm s2) h) in
-      match get_set s3 h with
-      | None => (s3, OErr)
-      | Some d => (set_sets (set_sidx s3 (id_del (sidx s3) (d_id d))) (set_slot (sets s3) h None), OOk h)
+      let metas := sort_dedup (concat (nth h (kamm s3) []) ++ concat (nth h (damm s3) [])) in
+      let s4 := remove_anns s3 metas in
+      let s5 := set_ddam (set_damm (set_kamm s4 (tclear (kamm s4) h)) (tclear (damm s4) h)) (tclear (ddam s4) h) in
+      match get_set s5 h with
+      | None => (s5, OErr)
+      | Some d => (set_sets (set_sidx s5 (id_del (sidx s5) (d_id d))) (set_slot (sets s5) h None), OOk h)
       end
   end.
 
